@@ -73,7 +73,7 @@ def main(ctx, args):
         raise Infra("width dump incomplete")
     cov = {"evaluations": st["fields"] + st["scalars"], "distinct_nontrivial": st["lines"],
            "rule": "lines = all of <= 3 (4) characters over {a, tab, wide, zero-width, ZWNJ placeholder, two Arabic letters, space, hyphen, "
-                   "digit, e-acute, fatha, tatweel} + newline, each under 4 (6) of the 30 combinations of order x textdirection x linelimit; "
+                   "digit, e-acute, fatha, tatweel} + newline, each under 4 (6) of the 60 combinations of order x textdirection x linelimit (2, 256, exactly the line length, one less); "
                    "every offset and column of every line; code points: %s" % ("all" if not ctx.quick else "U+0001..U+30FF, stride 61, table edges"),
            "samples": samples, "stats": st, "tables": info, "exhaustive": not ctx.quick,
            "explanation": "TLC evaluated Tiling and RoundTrip of Layout.tla on every generated line (thm) before writing the expected arrays"}
